@@ -70,9 +70,9 @@ func structDiff(e error, m *tm.Node, path string) string {
 }
 
 func runC14(c *core.Ctx, r *core.Result) {
-	p := plan{fullDepth: 3, coreDepth: 4, alphabet: tm.REGE}
+	p := plan{dupDepth: 2, fullDepth: 3, coreDepth: 4, alphabet: tm.REGE}
 	if c.Thorough() {
-		p = plan{fullDepth: 4, coreDepth: 6, alphabet: tm.REGE}
+		p = plan{dupDepth: 2, fullDepth: 4, coreDepth: 6, alphabet: tm.REGE}
 	}
 	r.Bounds = p.String() + "; references: 15 sentinels ∪ every node of e ∪ a fresh copy's nodes; 9 As target types (pointer, value, interface, error, type with As method)"
 	r.Rule = "state = (term, reference or target); non-trivial = the standard library finds a match (so the implication is not vacuous) or the chain mixes Cause-only and Unwrap-only wrappers"
